@@ -57,11 +57,15 @@ type auth struct {
 	Binding  string // v1: unbound | this | other ; v2: this | other | wildcard
 	Lifetime string // ok | exp-1 | exp=now | nbf+1 | iat+1
 	ReqSig   string // v1: session-key | other-key ; v2: n/a
+	Chain    string // v2chain: issuers from the root to the presented token, letters o(wner) s(tranger) t(hird party)
 }
 
 func (a auth) String() string {
 	if a.Kind == "direct" {
 		return "direct:" + a.Direct
+	}
+	if a.Kind == "v2chain" {
+		return fmt.Sprintf("v2chain:issuers=%s,verb=%d", a.Chain, a.Verb)
 	}
 	return fmt.Sprintf("%s:issuer=%s,toksig=%s,verb=%d,binding=%s,life=%s,reqsig=%s", a.Kind, a.Issuer, a.TokSig, a.Verb, a.Binding, a.Lifetime, a.ReqSig)
 }
@@ -87,6 +91,25 @@ func authMenu() []auth {
 						m = append(m, auth{Kind: "v2", Issuer: is, TokSig: ts, Verb: v, Binding: b, Lifetime: lf})
 					}
 				}
+			}
+		}
+	}
+	// V2 delegation chains of 2 and 3 genuinely signed tokens: every placement of {owner, stranger, third party}
+	// as root issuer / intermediate issuer(s) / issuer of the presented token; the op's verb or another one;
+	// context = this container (wildcard for creation), valid lifetime
+	parties := "ost"
+	for l := 2; l <= 3; l++ {
+		n := 1
+		for i := 0; i < l; i++ {
+			n *= 3
+		}
+		for x := 0; x < n; x++ {
+			ch := ""
+			for i, y := 0, x; i < l; i, y = i+1, y/3 {
+				ch += string(parties[y%3])
+			}
+			for v := 0; v < 2; v++ {
+				m = append(m, auth{Kind: "v2chain", Chain: ch, Verb: v, TokSig: "ok", Lifetime: "ok", Binding: "this"})
 			}
 		}
 	}
@@ -378,6 +401,26 @@ func build(w *irworld.World, f *fix, c ccase, am []auth) (script []byte, ft fact
 		tok = t.Marshal()
 		sig, key = f.subj.SignRFC6979(ft.signed), f.subj.PubBytes()
 	}
+	if a.Kind == "v2chain" {
+		third := irworld.NewUser("third")
+		var issuers []irworld.User
+		for _, ch := range a.Chain {
+			issuers = append(issuers, map[rune]irworld.User{'o': f.owner, 's': f.other, 't': third}[ch])
+		}
+		ov := opVerb[c.Op]
+		verbs := []sessionv2.Verb{v2Verbs[ov]}
+		if a.Verb == 1 {
+			verbs = []sessionv2.Verb{v2Verbs[(ov+1)%5]}
+		}
+		var cnr cid.ID // wildcard for creation
+		if ov != 0 {
+			cnr = ft.cnrID
+		}
+		sec := func(s int64) time.Time { return time.Unix(s, 0) }
+		t := irworld.SessionV2Chain(issuers, f.subj, verbs, cnr, sec(nowSec-10), sec(nowSec-10), sec(nowSec+10))
+		tok = t.Marshal()
+		sig, key = f.subj.SignRFC6979(ft.signed), f.subj.PubBytes()
+	}
 	if tok == nil {
 		tok = []byte{}
 	}
@@ -423,6 +466,9 @@ func authorised(c ccase, a auth) (bool, string) {
 			return ok, "creation with a token bound to a container id"
 		}
 		return ok, ""
+	case "v2chain":
+		// the owner stands behind a delegation chain only if the owner issued its ROOT token
+		return a.Chain[0] == 'o' && a.Verb == 0, ""
 	case "v2":
 		verbOK := a.Verb == 0 || a.Verb == 2
 		ok := a.Issuer == "owner" && a.TokSig == "ok" && verbOK && lifeOK
@@ -483,7 +529,16 @@ func check(r *ev.Run, w *irworld.World, f *fix, am []auth, c ccase, nonce uint32
 	}
 	if approved && len(missing) > 0 && amb == "" {
 		kind := a.Kind
-		if a.Kind != "direct" && missing[0] == "owner-authorisation" {
+		if a.Kind == "v2chain" && missing[0] == "owner-authorisation" {
+			var why []string
+			if a.Chain[0] != 'o' {
+				why = append(why, fmt.Sprintf("root-issuer-not-owner(len=%d,owner-in-chain=%v)", len(a.Chain), strings.Contains(a.Chain, "o")))
+			}
+			if a.Verb != 0 {
+				why = append(why, "wrong-verb")
+			}
+			kind += ":" + strings.Join(why, "+")
+		} else if a.Kind != "direct" && missing[0] == "owner-authorisation" {
 			var why []string
 			if a.Issuer != "owner" {
 				why = append(why, "issuer-not-owner")
@@ -607,7 +662,7 @@ func main() {
 	if approvedClasses < opCount {
 		r.Fatal("vacuous: only %d approved classes", approvedClasses)
 	}
-	r.Rule("cases = operation{create, createV2, remove, legacy delete, putEACL, setAttribute, removeAttribute} x authorisation{4 direct-signature variants; V1 token: issuer{owner,other} x token signature{ok,forged} x verb{5} x binding{unbound,this,other} x lifetime{ok, exp=e-1, exp=e, nbf=e+1, iat=e+1} x request signature{session key, other key}; V2 token: issuer x signature x verbs{the op's, another, both} x context container{this, other, wildcard} x lifetime (seconds around chain time)} x operation variant{create: 6 policies x 5 attribute sets (x allowEC for EC policies); putEACL: 3 tables x 2 basic ACLs; attributes: 3 names}; non-trivial = approved case or case refused with exactly one missing condition")
+	r.Rule("cases = operation{create, createV2, remove, legacy delete, putEACL, setAttribute, removeAttribute} x authorisation{4 direct-signature variants; V1 token: issuer{owner,other} x token signature{ok,forged} x verb{5} x binding{unbound,this,other} x lifetime{ok, exp=e-1, exp=e, nbf=e+1, iat=e+1} x request signature{session key, other key}; V2 token: issuer x signature x verbs{the op's, another, both} x context container{this, other, wildcard} x lifetime (seconds around chain time); V2 delegation chains of 2 and 3 genuinely signed tokens: all 9+27 placements of {owner, stranger, third party} as root/intermediate/presented-token issuer x verb{the op's, another}} x operation variant{create: 6 policies x 5 attribute sets (x allowEC for EC policies); putEACL: 3 tables x 2 basic ACLs; attributes: 3 names}; non-trivial = approved case or case refused with exactly one missing condition")
 	r.Exhaustive(exhaustive)
 	r.Assume("owners and token issuers are ECDSA users (N3 contract-account witnesses are never confirmed by the modelled chain)",
 		"oracle is one-directional (approved => authorised, valid policy, permitted system attributes, eACL allowed), as the property states 'only if'",
